@@ -519,6 +519,66 @@ def unbalanced(kind: str, form: str) -> tuple[bytes, dict]:
     raise ValueError(kind)
 
 
+# ------------------------------------------------------------------------------------------------------------ PDF: one embedded font program, different glyphs used
+# width / height of the digit glyphs of a common sans font in font units (2048 per em): a reader that has to guess which glyph is which digit
+# (ToUnicode maps them to U+0000) can only go by the outlines
+_DIGIT_BOX = {0: (956, 1497), 1: (540, 1472), 2: (971, 1472), 3: (960, 1498), 4: (1014, 1466), 5: (972, 1471), 6: (968, 1497), 7: (949, 1447), 8: (966, 1497), 9: (964, 1497)}
+
+
+def _ttf(n: int = 30, salt: int = 0) -> bytes:
+    """A minimal TrueType program (glyf / head / loca / maxp): glyph g has the bounding box of digit g % 10; ``salt`` changes bytes nobody reads."""
+    import struct
+    glyf, offs = b"", [0]
+    for g in range(n):
+        w, h = _DIGIT_BOX[g % 10] if g else (0, 0)
+        glyf += struct.pack(">hhhhh", 1, 0, 0, w, h) + struct.pack(">H", salt)
+        offs.append(len(glyf))
+    loca = b"".join(struct.pack(">I", o) for o in offs)
+    head = bytearray(54)
+    struct.pack_into(">I", head, 0, 0x00010000)
+    struct.pack_into(">I", head, 12, 0x5F0F3CF5)
+    struct.pack_into(">H", head, 18, 2048)
+    struct.pack_into(">h", head, 50, 1)
+    maxp = struct.pack(">IH", 0x00010000, n) + b"\x00" * 26
+    tabs = [(b"glyf", glyf), (b"head", bytes(head)), (b"loca", loca), (b"maxp", maxp)]
+    out = struct.pack(">IHHHH", 0x00010000, len(tabs), 64, 2, 0)
+    off, body = 12 + 16 * len(tabs), b""
+    for tg, d in tabs:
+        out += struct.pack(">4sIII", tg, 0, off + len(body), len(d))
+        body += d + b"\x00" * (-len(d) % 4)
+    return out + body
+
+
+def pdf_font(variant: str, own_font: bool = False) -> tuple[bytes, dict]:
+    """A page whose digits are set in an embedded CID TrueType font with a ToUnicode map that sends them to U+0000 (so the reader has to recover
+    them from the font program).  Variants use different glyphs of the SAME font program bytes (A: 1 2 3, B: 14 15 16 17, C: 25 26, D: 1 2 3 again);
+    with ``own_font`` every variant embeds a program of its own (control)."""
+    gids = {"A": [1, 2, 3], "B": [14, 15, 16, 17], "C": [25, 26, 8], "D": [3, 2, 1]}[variant]
+    tag = f"isopdffont{'own' if own_font else ''}{variant}"
+    font = _ttf(salt=(1 + "ABCD".index(variant)) if own_font else 0)
+    codes = "".join("%04X" % g for g in gids)
+    content = f"BT /F2 12 Tf 50 750 Td ({tag}) Tj ET BT /F1 12 Tf 50 700 Td <{codes}> Tj ET BT /F2 12 Tf 50 650 Td (end{tag}) Tj ET".encode()
+    cmap = ("/CIDInit /ProcSet findresource begin 12 dict begin begincmap /CMapName /X def /CMapType 2 def 1 begincodespacerange <0000> <FFFF> endcodespacerange "
+            f"{len(gids)} beginbfchar " + " ".join("<%04X> <0000>" % g for g in gids) + " endbfchar endcmap CMapName currentdict /CMap defineresource pop end end").encode()
+    objs = [b"<< /Type /Catalog /Pages 2 0 R >>", b"<< /Type /Pages /Kids [3 0 R] /Count 1 >>",
+            b"<< /Type /Page /Parent 2 0 R /MediaBox [0 0 612 792] /Resources << /Font << /F1 5 0 R /F2 10 0 R >> >> /Contents 4 0 R >>",
+            b"<< /Length %d >>\nstream\n" % len(content) + content + b"\nendstream",
+            b"<< /Type /Font /Subtype /Type0 /BaseFont /ISOFNT /Encoding /Identity-H /DescendantFonts [6 0 R] /ToUnicode 8 0 R >>",
+            b"<< /Type /Font /Subtype /CIDFontType2 /BaseFont /ISOFNT /CIDSystemInfo << /Registry (Adobe) /Ordering (Identity) /Supplement 0 >> /FontDescriptor 7 0 R /CIDToGIDMap /Identity /DW 1000 >>",
+            b"<< /Type /FontDescriptor /FontName /ISOFNT /Flags 4 /FontBBox [0 0 1000 1000] /ItalicAngle 0 /Ascent 800 /Descent -200 /CapHeight 700 /StemV 80 /FontFile2 9 0 R >>",
+            b"<< /Length %d >>\nstream\n" % len(cmap) + cmap + b"\nendstream",
+            b"<< /Length %d /Length1 %d >>\nstream\n" % (len(font), len(font)) + font + b"\nendstream",
+            b"<< /Type /Font /Subtype /Type1 /BaseFont /Helvetica >>"]
+    out, xref = b"%PDF-1.4\n", []
+    for i, o in enumerate(objs, 1):
+        xref.append(len(out))
+        out += b"%d 0 obj\n" % i + o + b"\nendobj\n"
+    x = len(out)
+    out += b"xref\n0 %d\n0000000000 65535 f \n" % (len(objs) + 1) + b"".join(b"%010d 00000 n \n" % p_ for p_ in xref)
+    out += b"trailer\n<< /Size %d /Root 1 0 R >>\nstartxref\n%d\n%%%%EOF\n" % (len(objs) + 1, x)
+    return out, {"has": [tag, "end" + tag, "".join(str(g % 10) for g in gids)], "not": []}
+
+
 # ------------------------------------------------------------------------------------------------------------ mail: sub-objects of different sizes, attachments the name alone cannot route
 def _mbox_wrap(messages: list[bytes]) -> bytes:
     return b"".join(b"From sender@iso.example Mon Jan  2 03:04:05 2023\n" + m.replace(b"\r\n", b"\n") + b"\n" for m in messages)
@@ -709,6 +769,8 @@ FAMILIES = {
     "unb-epub-last": ("epub", lambda v: unbalanced("epub-last", v), ".epub", UNBALANCED_FORMS),
     "unb-html": ("html", lambda v: unbalanced("html", v), ".html", UNBALANCED_FORMS),
     "unb-mhtml": ("mhtml", lambda v: unbalanced("mhtml", v), ".mhtml", UNBALANCED_FORMS),
+    "pdf-font": ("pdf", pdf_font, ".pdf", ["A", "B", "C", "D"]),
+    "pdf-font-own": ("pdf", lambda v: pdf_font(v, own_font=True), ".pdf", ["A", "B", "C", "D"]),
     "mbox-sized": ("mbox", lambda v: mail_sized("mbox", v), ".mbox", MAIL_SIZED + ["box"]),
     "eml-sized": ("eml", lambda v: mail_sized("eml", v), ".eml", MAIL_SIZED),
     "mbox-unnamed": ("mbox", lambda v: mail_unnamed("mbox", v), ".mbox", MAIL_UNNAMED),
@@ -742,6 +804,7 @@ def feature(src, kind: str = "") -> str:
     fam, var = src[1], str(src[2]).split(":")[0]
     fixed = {"rtf-cp": "rtf-cp", "epub-multi": "epub-first-match-candidates", "html-multi": "html-first-match-candidates", "plain": "plain",
              "zip-mime": "archive-mime-fallback-members", "tar-mime": "archive-mime-fallback-members", "route": "router-mime-fallback-names",
+             "pdf-font": "pdf-shared-font-program", "pdf-font-own": "pdf-own-font-program",
              "mbox-sized": "mbox-attachment-sizes", "eml-sized": "eml-attachment-sizes", "mbox-unnamed": "mbox-unnamed-attachment", "eml-unnamed": "eml-unnamed-attachment",
              "deep-html": "html-deep-nesting", "deep-mhtml": "mhtml-deep-nesting",
              "unb-epub": "epub-unclosed-markup", "unb-epub-last": "epub-unclosed-markup", "unb-html": "html-unclosed-markup", "unb-mhtml": "mhtml-unclosed-markup"}
@@ -788,6 +851,10 @@ def groups() -> list[dict]:
         g("epub:unclosed-markup-first/parser-state", "unb-epub-last", UNBALANCED_FORMS),
         g("html:unclosed-markup/parser-state", "unb-html", UNBALANCED_FORMS),
         g("mhtml:unclosed-markup/parser-state", "unb-mhtml", UNBALANCED_FORMS),
+    ]
+    out += [
+        g("pdf:embedded-font-program/glyphs-used", "pdf-font", ["A", "B", "C", "D"]),
+        g("pdf:embedded-font-program-per-document/glyphs-used", "pdf-font-own", ["A", "B", "C", "D"]),
     ]
     out += [
         g("mbox:attachment-size/scratch-buffer", "mbox-sized", FAMILIES["mbox-sized"][3]),
